@@ -70,6 +70,30 @@ func c02Eval(c c02Case) (ok bool, sig, detail string) {
 	if got := string(out.Bytes()); got != want {
 		return false, "residues", fmt.Sprintf("residues %q want %q", got, want)
 	}
+	// non-initial representation: the host's residue slice has room to grow, as the result of Concat (or a
+	// sub-slice of a larger buffer) has; the room is filled with 'z' so that reading it shows. The result must be the same.
+	{
+		roomy := append(make([]byte, 0, c.L+c.N+5), hostRes...)
+		for k := c.L; k < cap(roomy); k++ {
+			roomy[:cap(roomy)][k] = 'z'
+		}
+		var out2 gts.Sequence
+		if p, msg := engine.Safely(func() {
+			ff := make(gts.FeatureSlice, len(locs))
+			for k, l := range locs {
+				ff[k] = gts.Feature{Key: keys[k], Loc: l, Props: hostProps(k)}
+			}
+			out2 = applyInsertOp(c.Op, gts.New(nil, ff, roomy), c.I, mkSeq(guestRes, glocs, "g"))
+		}); p {
+			return false, "panic", "panic (host with spare capacity): " + msg
+		}
+		if got := string(out2.Bytes()); got != want {
+			return false, "residues-roomy-host", fmt.Sprintf("host whose residue slice has spare capacity (len %d, cap %d): residues %q want %q", c.L, cap(roomy), got, want)
+		}
+		if string(roomy) != string(hostRes) {
+			return false, "residues-roomy-host", fmt.Sprintf("host whose residue slice has spare capacity: the host's residues changed to %q", roomy)
+		}
+	}
 	ff := out.Features()
 	if len(ff) != len(locs)+len(glocs) {
 		return false, "feature-count", fmt.Sprintf("%d features in the result, want %d", len(ff), len(locs)+len(glocs))
